@@ -109,8 +109,8 @@ def _num_ok(got, exact_arr, mag_arr):
         return False, f"shape {got.shape} expected {exp.shape}"
     err = np.abs(got - exp)
     tol = REL * np.asarray(mag_arr, dtype=float) + 5e-324
-    if np.any(err > tol):
-        w = tuple(int(i) for i in np.argwhere(err > tol)[0])
+    if C.gt(err, tol):
+        w = tuple(int(i) for i in np.argwhere(~(err <= tol))[0])
         return False, f"at {w}: got {got[w]!r} exact {exp[w]!r}"
     return True, ""
 
@@ -137,7 +137,7 @@ def _check_reduced_mesh(ctx, sig, res, mesh, removed, inst):
     if ok:
         for j, k in enumerate(keep):
             for got, ref in ((rm.region.pmin[j], mesh.region.pmin[k]), (rm.region.pmax[j], mesh.region.pmax[k])):
-                if abs(float(got) - float(ref)) > 4 * C.ulp(max(abs(float(ref)), float(mesh.region.edges[k]))):
+                if C.gt(abs(float(got) - float(ref)), 4 * C.ulp(max(abs(float(ref)), float(mesh.region.edges[k])))):
                     ok = False
     if not ok:
         ctx.fail(sig, f"axes {[mesh.region.dims[k] for k in removed]} removed from n={list(mesh.n)} dims={mesh.region.dims} "
@@ -264,7 +264,7 @@ def unit_directional(ctx):
         # last entry + half the last cell = directional integral (both from the library)
         last = np.take(c.array, -1, axis=ax) + 0.5 * float(mesh.cell[ax]) * np.take(vals, -1, axis=ax)
         ctx.check()
-        if np.any(np.abs(last - np.asarray(got).reshape(last.shape)) > 16 * REL * mag.reshape(last.shape) + 5e-324):
+        if C.gt(np.abs(last - np.asarray(got).reshape(last.shape)), 16 * REL * mag.reshape(last.shape) + 5e-324):
             ctx.fail("Field.integrate(cumulative)/last-entry-plus-half-cell-differs-from-directional-integral",
                      f"{last.ravel()[:4].tolist()} vs {np.asarray(got).ravel()[:4].tolist()}", instance=inst)
     # --- directional mean, string form and one-element list form
@@ -337,7 +337,7 @@ def unit_fubini(ctx):
     ctx.observe(got)
     ctx.check()
     magt = np.sum(np.abs(vals), axis=tuple(range(ndim))) * float(fac)
-    if got.shape != total.shape or np.any(np.abs(got - total) > 16 * REL * magt):
+    if got.shape != total.shape or C.gt(np.abs(got - total), 16 * REL * magt):
         ctx.fail("Field.integrate/direction-by-direction-differs-from-volume-integral",
                  f"order {[mesh.region.dims[k] for k in order]}: {got.tolist()} vs integrate() = {total.tolist()}", instance=inst)
 
@@ -402,7 +402,7 @@ def unit_mean_sets(ctx):
     gi = np.asarray(cur.array if isinstance(cur, df.Field) else cur)
     gi = gi.reshape(gm.shape) if gi.size == gm.size else gi
     ctx.check()
-    if gi.shape != gm.shape or np.any(np.abs(gi / ext - gm) > 16 * REL * mag + 5e-324):
+    if gi.shape != gm.shape or C.gt(np.abs(gi / ext - gm), 16 * REL * mag + 5e-324):
         ctx.fail(f"Field.mean({form})/differs-from-integral-over-extent", f"{(gi / ext).ravel()[:4].tolist()} vs {gm.ravel()[:4].tolist()}",
                  instance=inst)
 
@@ -540,8 +540,8 @@ def unit_reuse(ctx):
                     continue
                 got = got.reshape(np.asarray(ex).shape)
                 ctx.observe(np.round(np.abs(got) / (np.max(np.abs(ex)) or 1.0), 9))
-                if np.any(np.abs(got - ex) > 16 * REL * np.asarray(mag) + 5e-324):
-                    w = tuple(int(i) for i in np.argwhere(np.abs(got - ex) > 16 * REL * np.asarray(mag) + 5e-324)[0])
+                if C.gt(np.abs(got - ex), 16 * REL * np.asarray(mag) + 5e-324):
+                    w = tuple(int(i) for i in np.argwhere(~(np.abs(got - ex) <= 16 * REL * np.asarray(mag) + 5e-324))[0])
                     ctx.fail(f"reuse/{tag}/{name.split('(')[0]}-wrong" + ("/complex-values" if dt == "complex" else ""),
                              f"{name} (use {rep}, {dt} values): at {w} got {got[w]!r} expected {np.asarray(ex)[w]!r}", instance=inst)
                     return False
@@ -606,7 +606,7 @@ def unit_settings(ctx):
             ctx.fail("settings/operation-raises", f"{name} on dims {names} with bc {bcs!r}: {type(r).__name__}: {str(r)[:150]}", instance=inst)
             return
         got = _raw(r, 2)
-        if got.size != np.asarray(ex).size or np.any(np.abs(got.reshape(np.asarray(ex).shape) - ex) > 16 * REL * np.asarray(mag) + 5e-324):
+        if got.size != np.asarray(ex).size or C.gt(np.abs(got.reshape(np.asarray(ex).shape) - ex), 16 * REL * np.asarray(mag) + 5e-324):
             ctx.fail("settings/number-wrong", f"{name} on dims {names} with bc {bcs!r}", instance=inst)
             return
         ctx.observe(np.round(got.ravel() / (np.max(np.abs(ex)) or 1.0), 9))
